@@ -75,7 +75,8 @@ def effectiveDof (sa2na sb2nb na nb : F) : F :=
   sub (sub (div (mul s s)
       (add (div (mul sa2na sa2na) (add na one)) (div (mul sb2nb sb2nb) (add nb one)))) one) one
 
-/-- guards and statistics of `Unpaired::ci_mean`, computed in `F`, widened at the end -/
+/-- guards and statistics of `Unpaired::ci_mean`, computed in `F` and widened, except for the effective
+    number of degrees of freedom, which is computed in `W` -/
 def ciPrep (u : Unpaired F) : Outcome (Err W) (Arith.Prep W) :=
   if u.a.count < 2 then .err (.tooFewSamples u.a.count) else
   if u.b.count < 2 then .err (.tooFewSamples u.b.count) else
@@ -88,9 +89,10 @@ def ciPrep (u : Unpaired F) : Outcome (Err W) (Arith.Prep W) :=
   let sb2nb := div (mul sdB sdB) nb
   let sumS2n := add sa2na sb2nb
   let sem := sqrt sumS2n
-  let dof := effectiveDof sa2na sb2nb na nb
+  -- the effective dof is computed in the wide type (`f64`) from the widened variance terms and counts
+  let dof : W := effectiveDof (Widen.up sa2na) (Widen.up sb2nb) (Widen.up na) (Widen.up nb)
   if !(isFinite meanDiff) || !(isFinite sem) then .err .invalidInputData else
-  .ok ⟨Widen.up meanDiff, Widen.up sem, Widen.up dof⟩
+  .ok ⟨Widen.up meanDiff, Widen.up sem, dof⟩
 
 def ciMean (crit : Crit W) (u : Unpaired F) (conf : Confidence W) : Outcome (Err W) (Interval F) :=
   (ciPrep u : Outcome (Err W) (Arith.Prep W)).bind fun p =>
